@@ -113,6 +113,12 @@ func configs04(tier string) []xplore.Config {
 			}
 		}
 	}
+	// decimal values that differ only beyond float32 resolution: each one is a
+	// change and is delivered (or coalesced into a later, newer one)
+	for _, sc := range [][]wop{{{"dec", "a/d"}, {"dec", "a/d"}}, {{"dec", "a/d"}, {"upd", "a/b"}, {"dec", "a/d"}}} {
+		out = append(out, xplore.Config{Name: fmt.Sprintf("W(t1)=%s | %s (decimals beyond float32 resolution)", scriptName(sc), subs[0]), Bound: bound - 1,
+			Data: cfg04{writers: []writer{{"t1", sc}}, subs: []subSpec{subs[0]}}})
+	}
 	// a server with an ACL: an all-targets subscriber that is denied t2 while t2
 	// is being updated (every response for it is dropped unsent), then nothing
 	// happens for longer than any time-out: the subscription stays up and keeps
